@@ -138,6 +138,12 @@ func (s *Store) persist(higher Snapshot, persistOptions StorePersistOptions) (
 	// Recursively build a new store footer combined with higher snapshot.
 	s.m.Lock()
 	footer := s.buildNewFooter(s.footer, ss)
+	if s.footer == nil || s.footer.fileRef() != fref {
+		// The footer opens a new file (nothing of the previous footer
+		// is persisted any more): there is no footer to walk back to in
+		// it, and an offset into the previous file means nothing here.
+		footer.PrevFooterOffset = 0
+	}
 	s.m.Unlock()
 
 	// Recursively write out all the segments of the snapshot.
